@@ -1943,7 +1943,7 @@ static void MPSreadBounds(MPSInput& mps, LPColSetBase<R>& cset, const NameSet& c
                val = atof(mps.field4());
 
             // ILOG extension (Integer Bound)
-            if(mps.field1()[1] == 'I')
+            if(mps.field1()[1] == 'I' && mps.field1()[0] != 'M')
             {
                if(intvars != nullptr)
                   intvars->addIdx(idx);
